@@ -1,0 +1,19 @@
+//go:build verif
+
+// Contracts for the deductive verifier in /verif (comment-only file; compiled only with -tags verif).
+package tcp
+
+// ---------------------------------------------------------------------------------------------
+// C14: the JSON encoder emits the documented keys, each bound to its own field, in a fixed order; "flags" is
+// omitted iff empty. (Escaping inside jwriter.String is the library's.)
+//@ func easyjsonD3b49167EncodeGithubComVByteCpuSxPkgScanTcp
+//@   props C14
+//@   observe RawByte, RawString, String, Uint16
+//@   entry row noflags: [call RawByte(out, 123) ; call RawString(out, "\"scan\":") ; call String(out, in.ScanType) ; call RawString(out, ",\"ip\":") ; call String(out, in.IP) ;
+//@                       call RawString(out, ",\"port\":") ; call Uint16(out, in.Port) ; call RawByte(out, 125)] when in.Flags == "" -> exit
+//@   entry row flags:   [call RawByte(out, 123) ; call RawString(out, "\"scan\":") ; call String(out, in.ScanType) ; call RawString(out, ",\"ip\":") ; call String(out, in.IP) ;
+//@                       call RawString(out, ",\"port\":") ; call Uint16(out, in.Port) ; call RawString(out, ",\"flags\":") ; call String(out, in.Flags) ; call RawByte(out, 125)] when in.Flags != "" -> exit
+//@ func (ScanResult).MarshalJSON
+//@   props C14
+//@   observe easyjsonD3b49167EncodeGithubComVByteCpuSxPkgScanTcp, BuildBytes
+//@   entry row enc: [call easyjsonD3b49167EncodeGithubComVByteCpuSxPkgScanTcp(bind_w, v) ; call BuildBytes(_, _) as (b)] when ret0 == b -> exit
